@@ -92,6 +92,52 @@ Proof.
       * eapply save_self_inv; eassumption.
 Qed.
 
+(** the same for the saver with size callbacks *)
+Lemma save_self_cb_inv : forall b tot st log n n' st' log' e tot', store_inv st log ->
+  save_self_cb addr kg b tot st log n = ((n', st', log', e), tot') -> store_inv st' log' /\ exists new, log' = log ++ new.
+Proof.
+  intros b tot st log n n' st' log' e tot' Hi H. unfold save_self_cb in H. destruct (marshal kg n) as [n2 [bytes|x]].
+  - destruct (b <? tot + N.of_nat (length bytes))%N; inversion H; subst.
+    + split; [assumption | exists []; now rewrite app_nil_r].
+    + split; [now apply store_inv_put | eauto].
+  - inversion H; subst. split; [assumption | exists []; now rewrite app_nil_r].
+Qed.
+
+Lemma save_forks_cb_inv : forall sv fs,
+  (forall tot st log c c' st' log' e tot', store_inv st log -> sv tot st log c = ((c', st', log', e), tot') ->
+     store_inv st' log' /\ exists new, log' = log ++ new) ->
+  forall tot st log fs' st' log' e tot', store_inv st log -> save_forks_cb sv fs tot st log = ((fs', st', log', e), tot') ->
+  store_inv st' log' /\ exists new, log' = log ++ new.
+Proof.
+  intros sv fs Hsv. induction fs as [|[k [pre c]] fs IH]; intros tot st log fs' st' log' e tot' Hi H.
+  - simpl in H. inversion H; subst. split; [assumption | exists []; now rewrite app_nil_r].
+  - cbn [save_forks_cb] in H. destruct (sv tot st log c) as [[[[c1 st1] log1] e1] t1] eqn:E1.
+    destruct (Hsv _ _ _ _ _ _ _ _ _ Hi E1) as [Hi1 [new1 Hl1]].
+    destruct e1 as [x|].
+    + inversion H; subst. split; [assumption | eauto].
+    + destruct (save_forks_cb sv fs t1 st1 log1) as [[[[fs2 st2] log2] e2] t2] eqn:E2. inversion H; subst.
+      destruct (IH _ _ _ _ _ _ _ _ Hi1 E2) as [Hi2 [new2 Hl2]].
+      split; [assumption|]. exists (new1 ++ new2). now rewrite app_assoc.
+Qed.
+
+Lemma save_cb_inv : forall fuel b tot st log n n' st' log' e tot', store_inv st log ->
+  save_cb addr kg fuel b tot st log n = ((n', st', log', e), tot') -> store_inv st' log' /\ exists new, log' = log ++ new.
+Proof.
+  induction fuel as [|fuel IH]; intros b tot st log n n' st' log' e tot' Hi H.
+  - simpl in H. inversion H; subst. split; [assumption | exists []; now rewrite app_nil_r].
+  - cbn [save_cb] in H. destruct (n_ref n).
+    + inversion H; subst. split; [assumption | exists []; now rewrite app_nil_r].
+    + destruct (n_forks n) as [fs|].
+      * destruct (save_forks_cb (save_cb addr kg fuel b) fs tot st log) as [[[[fs1 st1] log1] e1] t1] eqn:E1.
+        destruct (save_forks_cb_inv (save_cb addr kg fuel b) fs (fun tot st log c c' st' log' e tot' => IH b tot st log c c' st' log' e tot') _ _ _ _ _ _ _ _ Hi E1)
+          as [Hi1 [new1 Hl1]].
+        destruct e1 as [x|].
+        -- inversion H; subst. split; [assumption | eauto].
+        -- destruct (save_self_cb_inv _ _ _ _ _ _ _ _ _ _ Hi1 H) as [Hi2 [new2 Hl2]]. split; [assumption|].
+           exists (new1 ++ new2). subst. now rewrite app_assoc.
+      * eapply save_self_cb_inv; eassumption.
+Qed.
+
 End WithStore.
 
 (** ---- saving a never-saved tree ---- *)
@@ -188,7 +234,7 @@ Proof.
   (* marshal the node with its saved children *)
   set (n1 := set_forks t (Some fs')).
   assert (Hkeys : map fst fs' = map fst fs) by (eapply Forall2_keys; eassumption).
-  destruct (marshal_unmarshal kg n1 fs') as [bytes [Hm Hun]].
+  destruct (marshal_unmarshal kg n1 fs') as [bytes [Hm [_ Hun]]].
   { reflexivity. }
   { unfold keys_sorted. rewrite Hkeys. exact Hs. }
   { subst n1. simpl. destruct Hrbs as [H|[H _]]; rewrite H; lia. }
@@ -394,3 +440,70 @@ Proof.
 Qed.
 
 End WithStore3.
+
+(** ---- a Store whose size callback rejects every node ---- *)
+Section Reject.
+Variable addr : list N -> list N.
+Variable kg : list N.
+Hypothesis kg_len : length kg = 32.
+
+(** with a budget below the size of any node the first node that is marshalled is rejected:
+    nothing is stored, no reference is left behind; only obfuscation keys may have been
+    generated.  The denotation and the well-formedness of the tree are unchanged. *)
+Lemma save_cb_reject : forall f b tot st log t,
+  height t <= f -> (b < 64)%N -> tree_ok t ->
+  (length (n_okey t) = 0 \/ length (n_okey t) = 32) -> (n_rbs t = 32 \/ n_rbs t = 0) ->
+  exists t' tot', save_cb addr kg f b tot st log t = ((t', st, log, Some ESizeFn), tot') /\
+    tree_ok t' /\ n_ty t' = n_ty t /\ n_rbs t' = n_rbs t /\ n_entry t' = n_entry t /\ n_md t' = n_md t /\
+    (length (n_okey t') = 0 \/ length (n_okey t') = 32) /\
+    (n_forks t = Some [] -> n_forks t' = Some []) /\
+    forall q, den t' q = den t q.
+Proof.
+  induction f as [|f IH]; intros b tot st log t Hh Hb Hok Hkey Hrbs.
+  { destruct t as [? ? ? ? ? ? [?|]]; simpl in Hh; lia. }
+  destruct (tree_ok_inv t Hok) as [fs [Hfs [Href [Hs Hall]]]].
+  cbn [save_cb]. rewrite Href, Hfs.
+  destruct fs as [|[k [pre c]] fs].
+  - (* no forks: this node is marshalled and rejected *)
+    cbn [save_forks_cb]. unfold save_self_cb.
+    match goal with |- context [marshal kg ?x] => destruct (marshal_unmarshal kg x [] eq_refl) as [bytes [Hm [Hlen _]]] end.
+    { constructor. }
+    { cbn [n_rbs set_forks]. destruct Hrbs as [H|H]; rewrite H; lia. }
+    { unfold eff_key. cbn [n_okey set_forks]. destruct Hkey as [H|H]; rewrite H; cbn [Nat.eqb]; [exact kg_len | exact H]. }
+    { constructor. }
+    rewrite Hm.
+    assert (Hrej : (b <? tot + N.of_nat (length bytes))%N = true) by (apply N.ltb_lt; lia).
+    rewrite Hrej. eexists. eexists. split; [reflexivity|].
+    cbn [n_okey set_forks].
+    destruct (length (n_okey t) =? 0) eqn:E; cbn [n_ty n_rbs n_entry n_md n_okey n_forks set_forks set_okey].
+    + split; [apply (tree_ok_same_forks t); auto|].
+      split; [reflexivity|]. split; [reflexivity|]. split; [reflexivity|]. split; [reflexivity|].
+      split; [right; exact kg_len|]. split; [intros _; reflexivity|].
+      intros q. apply den_same; [now rewrite Hfs | reflexivity].
+    + split; [apply (tree_ok_same_forks t); auto|].
+      split; [reflexivity|]. split; [reflexivity|]. split; [reflexivity|]. split; [reflexivity|].
+      split; [exact Hkey|]. split; [intros _; reflexivity|].
+      intros q. apply den_same; [now rewrite Hfs | reflexivity].
+  - (* the first child is tried first and fails *)
+    destruct (Hall k pre c) as [Hfk [Hcr [Hcl Hct]]]; [cbn [fget]; now rewrite N.eqb_refl|].
+    assert (Hhc : height c <= f).
+    { pose proof (height_child t _ k pre c Hfs (or_introl eq_refl)). lia. }
+    destruct (IH b tot st log c Hhc Hb Hct ltac:(apply Hcl) ltac:(left; exact Hcr))
+      as [c' [tot' [Hsv [Hct' [T1 [T2 [T3 [T4 [T5 [_ Hden]]]]]]]]]].
+    cbn [save_forks_cb]. rewrite Hsv.
+    assert (Hput : set_forks t (Some ((k, (pre, c')) :: fs)) = put_fork t k (pre, c')).
+    { unfold put_fork. rewrite Hfs. cbn [fset]. now rewrite N.eqb_refl. }
+    match goal with |- context [set_forks t ?x] => replace (set_forks t x) with (put_fork t k (pre, c')) by (symmetry; exact Hput) end.
+    eexists. eexists. split; [reflexivity|].
+    assert (Hcl' : local_ok c').
+    { destruct Hcl as [_ [L2 [L3 [L4 L5]]]]. unfold local_ok. rewrite T1, T3, T4. auto. }
+    split; [apply tree_ok_put_fork; auto; congruence|].
+    unfold put_fork. rewrite Hfs. cbn [n_ty n_rbs n_entry n_md n_okey n_forks set_forks].
+    repeat split; auto; try (intros H; discriminate H).
+    intros q. destruct q as [|y q]; [reflexivity|].
+    rewrite !den_cons. unfold forks_get. cbn [n_forks set_forks]. rewrite Hfs. cbn [fset fget]. rewrite N.eqb_refl. cbn [fget].
+    destruct (N.eqb y k); [|reflexivity].
+    destruct pre as [|x pre]; [reflexivity|]. destruct (is_prefix (x :: pre) (y :: q)); [apply Hden | reflexivity].
+Qed.
+
+End Reject.
